@@ -132,7 +132,7 @@ def gen_cases(tier, seed):
                           'what': errno_case,
                           'cseed': rng.randrange(1 << 30)})
 
-    nc = 150 if tier == 'quick' else 6000
+    nc = 400 if tier == 'quick' else 6000
     for i in range(nc):
         cases.append({'kind': 'client', 'k': rng.choice([2, 3, 4, 8, 16]),
                       'order': rng.choice(['fifo', 'lifo', 'random',
